@@ -85,23 +85,23 @@ def run(ctx):
         jobs.append(("MCSuffix(names<=6 over 11 chars, no -S)", True,
                      pool.submit(tlc.run, "MCSuffix", cfg=mc_suffix_cfg(ctx, "mcs3.cfg", full, full, 6, 0, False),
                                  workers=W, timeout=1500)))
+    jobs.append(("MCArgs(6 program names x <=1 token in XZ_DEFAULTS, XZ_OPT x <=2 on the command line)", True,
+                 pool.submit(tlc.run, "MCArgs", workers=2 if q else 4, timeout=900)))
     # non-vacuity witnesses: each must be violated
     wit = {}
     for inv in ("NeverSpells", "NeverSkipsCompress", "NeverTar"):
         wit[inv] = pool.submit(tlc.run, "MCSuffix", cfg=mc_suffix_cfg(ctx, "wit_%s.cfg" % inv, ["a", ".", "t", "x", "z"],
                                ["x", "z"], 5, 2, False, invariants=inv), workers=1, timeout=300)
     if q:
-        jobs.append(("MCAttrs(all kinds x flags x targets, 8 modes)", True, pool.submit(tlc.run, "MCAttrs", workers=2, timeout=600, coverage=True)))
+        jobs.append(("MCAttrs(all kinds incl. stdin x flags x targets x data tails x --no-sparse, 6 modes)", True, pool.submit(tlc.run, "MCAttrs", workers=2, timeout=600, coverage=True)))
         jobs.append(("MCAttrs(mode lattice 0..07777 x fchown outcomes)", True,
                      pool.submit(tlc.run, "MCAttrs", cfg="MCAttrsModes.cfg", workers=2, timeout=600)))
     else:
         big = open(os.path.join(tlc.SPEC, "MCAttrsModes.cfg")).read().replace("ForceSet = {FALSE}", "ForceSet = {TRUE, FALSE}") \
             .replace("ChmodSet = {TRUE}", "ChmodSet = {TRUE, FALSE}").replace("UidSameSet = {FALSE}", "UidSameSet = {TRUE, FALSE}")
-        jobs.append(("MCAttrs(all kinds x flags x targets, 8 modes)", True, pool.submit(tlc.run, "MCAttrs", workers=W, timeout=900, coverage=True)))
+        jobs.append(("MCAttrs(all kinds incl. stdin x flags x targets x data tails x --no-sparse, 6 modes)", True, pool.submit(tlc.run, "MCAttrs", workers=W, timeout=900, coverage=True)))
         jobs.append(("MCAttrs(mode lattice 0..07777 x all fchown/fchmod outcomes x keep x force)", True,
                      pool.submit(tlc.run, "MCAttrs", cfg=_cfg(ctx, "mcam.cfg", big), workers=W, timeout=1500)))
-    jobs.append(("MCArgs(6 program names x <=1 token in XZ_DEFAULTS, XZ_OPT x <=2 on the command line)", True,
-                 pool.submit(tlc.run, "MCArgs", workers=2 if q else 4, timeout=900)))
     jobs.append(("MCExitStatus(<=6 messages)", True, pool.submit(tlc.run, "MCExitStatus", workers=1, timeout=300)))
 
     # ------------------------------------------------------------------ (R) names
